@@ -140,6 +140,9 @@ const (
 	cStake   = 4000000
 )
 
+// mayBurnAll: the frame may use up (nearly) all the gas it is GIVEN, however much that is: it ends in a
+// non-REVERT failure, or it contains a CREATE/CREATE2 child that does (a create child is handed 63/64 of
+// whatever its parent has, not a budget), or a CREATE2 that may collide.
 func (f *frame) mayBurnAll() bool {
 	switch f.end {
 	case "invalid", "oog", "rethuge":
@@ -148,6 +151,9 @@ func (f *frame) mayBurnAll() bool {
 	for _, a := range f.acts {
 		if a.kind == 'V' || a.kind == 'Q' {
 			return true // UNSTAKEALL / STAKENUM fail the frame when there is no such miner
+		}
+		if a.kind == 'N' && (a.two || a.body.mayBurnAll()) {
+			return true
 		}
 	}
 	return false
@@ -383,6 +389,22 @@ func (g *gen) frame(depth, maxDepth int, self string, static, inCreate bool) *fr
 	nacts := r.Pick(0, 1, 1, 2, 2, 3, 4)
 	pure := static && r.Chance(1, 2) // under STATICCALL: half of the frames try no direct write
 	authed := false
+	if static && depth < maxDepth && r.Chance(1, 3) {
+		// below a STATICCALL: a non-static child frame that starts with a write -- the sticky read-only flag
+		// must still stop it (this is what a "readOnly follows the innermost frame" regression breaks)
+		ck := []string{"call", "delegatecall", "callcode"}[r.Intn(3)]
+		host := hosts[r.Intn(len(hosts))]
+		cself := host
+		if ck != "call" {
+			cself = self
+		}
+		c := &act{kind: 'C', id: g.id(), ck: ck, addr: host}
+		c.body = g.frame(depth+1, maxDepth, cself, true, false)
+		w := []*act{{kind: 'S', k: r.Intn(4), v: 1 + r.Intn(3)}, {kind: 'L', k: r.Intn(5), v: r.Intn(200)}, {kind: 'T', k: r.Intn(3), v: 1 + r.Intn(8)}}[r.Intn(3)]
+		c.body.acts = append([]*act{w}, c.body.acts...)
+		g.st.kinds["C"+ck]++
+		f.acts = append(f.acts, c)
+	}
 	for i := 0; i < nacts; i++ {
 		c := r.Intn(100)
 		if g.withStake && r.Chance(1, 4) {
